@@ -35,6 +35,21 @@ CLAIMED["C02"] = dict(
        "Trusted: hook placement (events emitted under the protecting lock), the tracer's reference Merkle root, TLC.",
   technique="TLC exhaustive model checking of the pipeline + TLC trace validation of hooked real executions")
 
+CLAIMED["C03"] = dict(
+  category="model_checking",
+  text="Fault enumeration on the real recovery code judged by the specification: workloads (concurrent committers, precommitted backlog, discards, chunk rotation, "
+       "index flushes, reopen) run on the real store in Synced mode with hooks that record every physical file operation (create, write at offset, fsync, remove, rename); "
+       "for EVERY point between two operations a crash image is materialised (process kill; power loss: only fsynced content / all but the last un-fsynced write per file / "
+       "random per-file prefix with torn last write), the real store.Open recovers it and the driver reads back the whole history, checks the chain against a reference "
+       "Merkle root, values, dual proofs from acknowledged states, index lookups and a fresh commit. Each outcome is inserted as a Recovered event at the crash position of "
+       "the logical hook trace; TLC validates the execution against spec/Store.tla (write-ordering guards: a commit-log entry only after tx record and values are durable; "
+       "ack only after the commit log is fsynced) and judges every image with RecoveredVerdict on the spec state at that instant (everything committed survives identically; "
+       "the rest is a gap-free chained extension by really precommitted txs; proofs, index, new commits fine). MCStore.tla is model-checked exhaustively.",
+  design_ref="DESIGN.md §4 C03",
+  note="Crash model: per-file prefix of un-fsynced writes + torn last write, no reordering inside a file, directory entries durable after SyncDir (what the code assumes). "
+       "Crashes during recovery itself are not enumerated yet. Workloads are the ones the driver generates (6 quick / 24 thorough, ~5-10k images quick).",
+  technique="physical-operation hooks + exhaustive crash-point enumeration on real recovery, verdicts by TLC trace validation against Store.tla")
+
 REASONS = {}
 
 
